@@ -63,6 +63,10 @@ SEEDS = {
     'C17f': ('C17', ['C17', 'C16'], 'sorted insertion rewritten: a record older than everything queued lands at index 1', 'move mode; event of an older metadata file handled after a newer one (count=1 ringbuffer deletes the newest)'),
     'C19f': ('C19', ['C19', 'C05'], 'extension rf_write returns next_sample + vector_length instead of the library cursor', 'zero-length rf_write with an explicit next_sample beyond the next available sample'),
     'C20f': ('C20', ['C20', 'C12'], "_add_metadata treats a KeyError (missing column) like an unreadable file: the file is deleted when old enough", 'column-restricted read; a sample lacking that column; file older than one cadence'),
+    'C03f': ('C03', ['C03'], 'gmtime replaced by an inline days-to-civil computation with the Julian-century constant (doe / 36525)', 'a time on March 1 of a non-leap century year (2100-03-01, 2200-03-01, ...)'),
+    'C13f': ('C13', ['C13', 'C12'], 'metadata writer caches the current subdirectory on the writer object and recomputes it only when the file time passes its end', 'a write into a subdirectory earlier than the one of a previous write on the same writer object'),
+    'C15f': ('C15', ['C15'], 'event filter compares integer milliseconds: the start bound is floored to whole milliseconds', 'starttime with a sub-millisecond part and a file less than 1 ms before it'),
+    'C18f': ('C18', ['C18'], 'ln --symbolic creates relative links computed from the path text', 'destination reached through a symlinked directory with a different depth'),
     'C02': ('C02', ['C02', 'C09'], 'existence check of the finished name skipped when the subdirectory was "just created" (in effect always)',
             'a second session writing into a period whose finalized file exists'),
     'C02b': ('C02', ['C02'], 'a failed exclusive create on an existing tmp name no longer marks the writer failed: close publishes the stale tmp file',
